@@ -335,9 +335,10 @@ def float_values(F, rng, nrand=200, per_binade=1, binades=None):
         out.append(("%x" % (base | ((1 << F["mbits"]) - 1)), "mantmax"))
         for _ in range(per_binade):
             out.append(("%x" % (base | rng.randrange(1 << F["mbits"])), "binade-random"))
-    for _ in range(nrand):
-        out.append(("%x" % rng.randrange(1 << (F["bits"] - 1)), "random-bits"))
     sign = 1 << (F["bits"] - 1)
+    for k in range(nrand):
+        # every third one negative: the longest outputs (sign + 17 digits + 3-digit negative exponent) need the sign
+        out.append(("%x" % (rng.randrange(1 << (F["bits"] - 1)) | (sign if k % 3 == 2 else 0)), "random-bits"))
     specials = [0, sign, nb << F["mbits"], sign | (nb << F["mbits"]), (nb << F["mbits"]) | 1,
                 sign | (nb << F["mbits"]) | (1 << (F["mbits"] - 1)), 1, sign | 1]
     for s in specials:
